@@ -111,6 +111,8 @@ class Gen(object):
 
     def body(self, depth, nparams):
         out = []
+        if nparams and depth == 0 and self.rnd.random() < 0.12:
+            return out          # a macro that swallows its arguments (\def\gob#1{})
         for _ in range(self.rnd.randint(1, 4)):
             r = self.rnd.random()
             if r < 0.35:
